@@ -5,11 +5,11 @@
 # On success the seed is kept as /verif/seeded/<PID>_<LETTER>/.
 set -u
 PID=$1; L=$2; TARGETS=$3; REGEX=$4; XF=${5:-}
-SRC=/tmp/seed_$PID/$L
+SRC=${SEEDROOT:-/tmp/seed_$PID}/$L
 WT=/tmp/cs_${PID}_$L
 DST=/verif/seeded/${PID}_$L
 LOG=$(mktemp /var/tmp/confirm_${PID}_${L}_XXXX.log)
-fail() { echo "CONFIRM-FAILED $PID/$L: $1" | tee -a $LOG; git -C /repo worktree remove --force $WT 2>/dev/null; cp $LOG /tmp/seed_$PID/$L/confirm_failed.log; exit 1; }
+fail() { echo "CONFIRM-FAILED $PID/$L: $1" | tee -a $LOG; git -C /repo worktree remove --force $WT 2>/dev/null; cp $LOG $SRC/confirm_failed.log; exit 1; }
 git -C /repo worktree remove --force $WT 2>/dev/null
 git -C /repo worktree add --detach $WT HEAD -q || fail "worktree"
 cd $WT
